@@ -16,11 +16,11 @@ def check(ctx, rep):
         "R13.7 the synchronous shutdown() returns the value of driving co_shutdown() once, unprotected. R13.8 `shutdown_timeout` is what the caller gave. R13.9 a coroutine-based job awaits the shutdown coroutine it was given, guarded by nothing but its presence. R13.10 (= R08.1) the deadline helper that bounds the shutdown phase gives no deadline only for None: shutdown_timeout=0 is a bound.")
     rep.declined = ["handler durations"]
     rep.trusted = ["T1", "T2", "T8"]
-    runrules.exit_discipline(ctx, rep, "R13.1", "R13.1", "R13.1")
+    runrules.exit_discipline(ctx, rep, "R13.1", "R13.1", "R13.1", shut_even_unstarted=True)
     shutrules.guard_atomic(ctx, rep, "R13.2")
     shutrules.broadcast_total(ctx, rep, "R13.3")
     shutrules.bounded_then_cancel(ctx, rep, "R13.4", "R13.5")
-    shutrules.cancellation_edges(ctx, rep, "R13.6")
+    shutrules.cancellation_edges(ctx, rep, "R13.6", prompt=True)
     common.sync_wrapper(ctx, rep, "R13.7", "shutdown")
     predicates.config_verbatim(ctx, rep, "R13.8", ('shutdown_timeout',))
     shutrules.user_shutdown_unconditional(ctx, rep, "R13.9")
